@@ -325,6 +325,34 @@ theorem em_bcout (s s' : State) (c u r : Nat) (tokens : List (Nat × Nat)) (pre 
           · rfl
           · intro _; simp [tokensValue]
 
+theorem em_vbcout (s s' : State) (c gfx u r v : Nat) (tokens : List (Nat × Nat))
+    (h : stepCore cfg s (.vbcout c gfx u r v tokens) = .ok s') : emeasure k0 g0 c0 s' = emeasure k0 g0 c0 s := by
+  simp only [stepCore] at h; exq
+  split at h
+  · cases h
+  · split at h
+    · cases h
+    · cases hi : pairsFlow cfg tokens (fun k g n => convertERC20 k g (U u) (U u) n) with
+      | error e => simp [hi] at h
+      | ok flIn =>
+        simp only [hi] at h
+        cases ho : tokensFlow cfg c ((gfx, v) :: tokens) (fun k g n => baseCoinToBridgeToken k g c (U u) n) with
+        | error e => simp [ho] at h
+        | ok flOut =>
+          simp only [ho] at h
+          cases hr : run s (valueIn gfx (U u) v ++ (flIn ++ flOut)) with
+          | error e => simp [hr] at h
+          | ok s1 =>
+            simp only [hr, Except.ok.injEq] at h; subst h
+            have hout := tokensFlow_obs (escObs k0 g0 c0) cfg c g0 _ (if c = c0 then 1 else 0) (by
+              intro k g n hk; rw [esc_withdraw k0 g0 c0 hk0 k g c u n (kind_unique hk hkind)]
+              split <;> split <;> simp_all) ((gfx, v) :: tokens) flOut ho
+            rw [emeasure_finish k0 g0 c0 s s1 _ c _ _ _ hr, flowDelta_append, flowDelta_append, esc_valueIn, hout,
+              pairsFlow_obs _ cfg _ (fun k g n => esc_convertERC20 k0 g0 c0 k g u u n) tokens flIn hi]
+            · em_close
+            · rfl
+            · intro _; simp [tokensValue]
+
 theorem em_refundCall (s s' : State) (c : Nat) (call : OutCall) (rest : List OutCall) (p : OutCall → Bool)
     (he : extract p (s.chains c).calls = some (call, rest))
     (h : refundCall cfg s c call { (s.chains c) with calls := rest } = .ok s') :
@@ -532,6 +560,7 @@ theorem step_emeasure (s s' : State) (op : Op) (h : step cfg s op = .ok s') :
       · exact em_executed cfg k0 g0 c0 s s' _ _ _ h
       · exact em_btimeout cfg k0 g0 c0 s s' _ _ _ h
       · exact em_bcout cfg k0 g0 c0 hkind hk0 s s' _ _ _ _ _ h
+      · exact em_vbcout cfg k0 g0 c0 hkind hk0 s s' _ _ _ _ _ _ h
       · exact em_bcresult cfg k0 g0 c0 hkind hk0 s s' _ _ _ h
       · exact em_bctimeout cfg k0 g0 c0 hkind hk0 s s' _ _ h
       · exact em_bcin cfg k0 g0 c0 hkind hk0 hB s s' _ _ _ h
